@@ -280,23 +280,38 @@ def normalise(events):
 
 
 # ----------------------------------------------------------------------------- validation
-def trace_cfg(invs, props):
+def trace_cfg(invs, props, deadlock=False):
     return ("SPECIFICATION TraceSpec\n" +
             const_block(WORKERS, CHANNELS, JOBIDS, CLIENTS, maxjobs=1000, maxtime=100000, restart=True, wait=True,
                         info=True, drop=True, reconnect=True, atomic=False, anyorder=True,
                         killers=['"admin"'] + ['"%s"' % w for w in WORKERS]) +
-            "INVARIANTS " + " ".join(invs) + "\n" +
+            "INVARIANTS " + " ".join(list(invs) + ([] if deadlock else ["EmitConsumed"])) + "\n" +
             ("PROPERTIES " + " ".join(props) + "\n" if props else "") +
-            "CHECK_DEADLOCK TRUE\n")
+            "CHECK_DEADLOCK %s\n" % ("TRUE" if deadlock else "FALSE"))
 
 
-_TID = re.compile(r"^\s*(\d+)\s*$")
+def _locate(ctx, trace, invs, props, name):
+    """Where does a rejected trace stop?  Re-run it alone with deadlock checking on: the deepest
+    event index any branch reaches (TLC reports the first dead end; good enough as a pointer)."""
+    path = os.path.join(ctx.scratch, "%s-one.json" % name)
+    with open(path, "w") as f:
+        json.dump([trace], f)
+    res = tlc.run(ctx, "WorkQTrace", trace_cfg(invs, props, deadlock=True), name=name + "_one",
+                  env={"TRACE_FILE": path}, timeout=600, workers=1, allow_timeout=True)
+    st = res.trace[-1][1] if res.trace else {}
+    try:
+        l = int(st.get("l", "1"))
+    except ValueError:
+        l = 1
+    return res, l, st
 
 
 def validate(ctx, traces, invs, props, name="trace", max_rounds=6):
-    """TLC-validate a batch of traces.  Returns (n_accepted, rejections, states) where a rejection is
-    {index, event_index, kind, name, event, prev_state}.  A rejected trace is removed and the
-    rest re-validated (TLC stops at the first deadlock / violation)."""
+    """TLC-validate a batch of traces.  Returns (n_accepted, rejections, states, generated); a
+    rejection is {index, event_index, kind, name, event, spec_state}.  A trace is accepted iff some
+    branch of the trace specification consumes it completely with every invariant / property
+    holding; a trace on which TLC reports a violated invariant or property is taken out and the
+    rest re-validated."""
     idx = list(range(len(traces)))
     rejections = []
     states = 0
@@ -312,8 +327,17 @@ def validate(ctx, traces, invs, props, name="trace", max_rounds=6):
         states += res.distinct
         generated += res.generated
         if res.ok:
-            return len(idx), rejections, states, generated
-        if res.kind not in ("deadlock", "invariant", "property"):
+            consumed = {e["consumed"] for e in res.emitted if isinstance(e, dict) and "consumed" in e}
+            missing = [k for k in range(1, len(idx) + 1) if k not in consumed]
+            for k in missing[:8]:
+                real = idx[k - 1]
+                tr = traces[real]
+                one, l, st = _locate(ctx, tr, invs, props, "%s_%d_%d" % (name, rnd, k))
+                evi = max(0, min(l - 1, len(tr) - 1))
+                rejections.append({"index": real, "event_index": evi, "kind": "deadlock", "name": None,
+                                   "event": {a: b for a, b in tr[evi].items() if a != "post"}, "spec_state": st})
+            return len(idx) - len(missing), rejections, states, generated
+        if res.kind not in ("invariant", "property"):
             ctx.machinery("trace validation failed without a verdict: %s %s\n%s" % (res.kind, res.message, res.out[-1500:]))
         lastst = res.trace[-1][1] if res.trace else {}
         try:
@@ -323,11 +347,7 @@ def validate(ctx, traces, invs, props, name="trace", max_rounds=6):
             ctx.machinery("cannot locate the rejected trace in TLC's output:\n" + res.out[-1500:])
         real = idx[tid - 1]
         tr = traces[real]
-        if res.kind == "deadlock":
-            evi = l - 1                       # the event at position l was not accepted
-        else:
-            evi = l - 2                       # the state after event l-1 violates the property
-        evi = max(0, min(evi, len(tr) - 1))
+        evi = max(0, min(l - 2, len(tr) - 1))           # the state after event l-1 violates the property
         rejections.append({"index": real, "event_index": evi, "kind": res.kind, "name": res.name,
                            "event": {k: v for k, v in tr[evi].items() if k != "post"},
                            "spec_state": lastst})
@@ -343,7 +363,7 @@ def diagnose(ctx, trace, invs, props):
     with open(path, "w") as f:
         json.dump([trace], f)
     try:
-        res = tlc.run(ctx, "WorkQTrace", trace_cfg(invs, props), name="diag", env={"TRACE_FILE": path, "DIAG": "1"},
+        res = tlc.run(ctx, "WorkQTrace", trace_cfg(invs, props, deadlock=True), name="diag", env={"TRACE_FILE": path, "DIAG": "1"},
                       timeout=300, workers=1, allow_timeout=True)
     except Exception:                      # noqa: BLE001  diagnosis is a hint only
         return ""
